@@ -77,7 +77,7 @@ pub fn rich_json(s: &SExp) -> Value {
     match s {
         SExp::Nil(_) => json!(["nil"]),
         SExp::Cons(_, a, b) => json!(["cons", rich_json(a.borrow()), rich_json(b.borrow())]),
-        SExp::Integer(_, i) => json!(["int", int_bytes(i)]),
+        SExp::Integer(_, i) => json!(["int", i.to_signed_bytes_be()]),
         SExp::QuotedString(_, q, b) => json!(["str", *q as u64, b]),
         SExp::Atom(_, b) => json!(["sym", b]),
     }
